@@ -12,7 +12,10 @@ def text(syms):
     return "".join(SYM[s] for s in syms)
 
 
-def syms(s):
+def syms(s, lenient=False):
+    """lenient: a character outside the table denotes itself (its class is then 'nonword' for the specification)."""
+    if lenient:
+        return [SYM_OF.get(c, c) for c in s]
     return [SYM_OF[c] for c in s]
 
 
